@@ -332,7 +332,8 @@ func (c *Coordinator) alleviateShardHeadSeries(s *shardInfo, changeAbleShards []
 			continue
 		}
 
-		if tar.Series > c.option.MaxHeadSeries {
+		// too big for any shard, by whichever limit: it can not be moved and is no reason to ask for space
+		if c.isTooBig(tar) {
 			c.log.Warnf("too big series [%d] series is [%d], skip alleviate", hash, tar.Series)
 			return 0
 		}
@@ -378,7 +379,8 @@ func (c *Coordinator) alleviateShardProcessSeries(s *shardInfo, changeAbleShards
 			continue
 		}
 
-		if tar.TotalSeries > c.option.MaxProcessSeries {
+		// too big for any shard, by whichever limit: it can not be moved and is no reason to ask for space
+		if c.isTooBig(tar) {
 			c.log.Warnf("too big series [%d] series is [%d], skip alleviate", hash, tar.Series)
 			return 0
 		}
